@@ -303,7 +303,7 @@ type sysB struct {
 }
 
 func specB() xstate.Spec {
-	maxes := []int32{2, 5, 8, 0} // (0: an edit to "nothing may be in flight" is an edit like any other)
+	maxes := []int32{2, 5, 8, 0}               // (0: an edit to "nothing may be in flight" is an edit like any other)
 	curs := []int32{0, 1, 3, 5, 6, 2147483647} // (the count is a client-supplied int32: its largest value is a report like any other)
 	return xstate.Spec{
 		Name: "seq-maxinflight",
@@ -509,7 +509,8 @@ func tokenBucket(c *ev.Check, maxLen int) {
 	cfgs := []cfg{{1, 1}, {1, 3}, {2, 2}, {4, 8}, {2, 5}, {4, 2}, {8, 1}, {3, 0}}
 	asks := []int32{0, 1, 2, 5, 9, 100, 2147483647}
 	advs := []time.Duration{125 * time.Millisecond, 500 * time.Millisecond, time.Second, 10 * time.Second}
-	resizes := []cfg{{8, 2}, {2, 6}}
+	// (the last two are edits of ONE number: {0, -1} halves the burst and keeps the rate, {-1, 0} halves the rate and keeps the burst)
+	resizes := []cfg{{8, 2}, {2, 6}, {0, -1}, {-1, 0}}
 	nsteps := len(asks) + len(advs) + len(resizes)
 	t0 := time.Unix(1700000000, 0)
 	for _, cf := range cfgs {
@@ -547,6 +548,17 @@ func tokenBucket(c *ev.Check, maxLen int) {
 					if s >= len(asks)+len(advs) {
 						// the global limit changes: the grants so far are judged under the old limit, a new segment starts
 						to := resizes[s-len(asks)-len(advs)]
+						if to.qps == 0 && to.burst == -1 {
+							to = cfg{cur.qps, cur.burst / 2}
+							if to.burst < 1 {
+								to.burst = 1
+							}
+						} else if to.qps == -1 && to.burst == 0 {
+							to = cfg{cur.qps / 2, cur.burst}
+							if to.qps < 1 {
+								to.qps = 1
+							}
+						}
 						if to == cur {
 							continue
 						}
